@@ -711,27 +711,10 @@ var ruleE1 = &Rule{
 	Floor: 300,
 	Doc: "static taint of raw SQL text: every string that becomes SQL text without passing the literal-escaping routine — the arguments of sql.NewRawObject / NewSimpleCol / FmtRawObject, aliases of NewCol / NewWith, the join type, and the text returned by every String(*sql.Ctx, …) renderer or NewCustomCol closure under reader/ — " +
 		"is traced backwards over SSA (assignments, phis, concatenation, fmt/strings transforms, struct fields by (type, field), parameters to call sites, closures, calls through the VTA call graph). Its leaves must be clean: constants, numbers, table names, grammar fields whose participle tag captures only token classes that cannot contain quote / backslash / space " +
-		"(decided from the lexer regexps), already rendered sub-objects (results of String(ctx, …)), or database values. A leaf that is request text — a grammar field capturing a quoted string, an HTTP / mux accessor, a field of a decoded request message — is a violation; the only way for such text into SQL is sql.NewStringVal, whose renderer escapes \\ and ' (checked)",
+		"(decided from the lexer regexps), already rendered sub-objects (results of String(ctx, …)), or database values. A leaf that is request text — a grammar field capturing a quoted string, an HTTP / mux accessor, a field of a decoded request message — is a violation; the only way for such text into SQL is sql.NewStringVal, whose renderer is checked by rule E3",
 	Run: func(c *Ctx) []Obl {
 		t := c.newTaint()
 		var obls []Obl
-		// the escaping routine escapes both backslash and quote before quoting
-		if fn := c.SSAFunc("reader/utils/sql_select", "(*StringVal).String"); fn != nil {
-			p, fd := c.FuncDecl("reader/utils/sql_select", "(*StringVal).String")
-			txt := ""
-			if fd != nil {
-				_ = p
-				txt = c.normText(fd.Body)
-			}
-			okEsc := strings.Contains(txt, `"\\"`) && strings.Contains(txt, `"'"`) && strings.Contains(txt, `"\\\\"`) && strings.Contains(txt, `"\\'"`) && strings.Contains(txt, `"'" + res + "'"`)
-			st, msg := OK, "escapes \\ then ' and wraps in quotes"
-			if !okEsc {
-				st, msg = Violation, "the literal-escaping routine no longer replaces both the backslash and the single quote before wrapping the value in quotes: every string literal in generated SQL can be terminated by request text"
-			}
-			obls = append(obls, Obl{Key: "reader/utils/sql_select.(*StringVal).String escapes backslash and quote", Pos: c.pos(fn.Pos()), Status: st, Msg: msg})
-		} else {
-			obls = append(obls, Obl{Key: "reader/utils/sql_select.(*StringVal).String", Pos: "-", Status: Undecided, Msg: "escaping routine not found"})
-		}
 		nth := map[string]int{}
 		for _, s := range t.sinks() {
 			t.budget = 20000
